@@ -600,6 +600,9 @@ func init() {
 	// ---------------------------------------------------------------- C12
 	register(&Prop{ID: "C12",
 		Gen: func(r *RNG, tier string, run int) *Trace {
+			if run%5 == 3 {
+				return genGSAPSmallBlocks(r)
+			}
 			if run%53 == 9 {
 				return genLongMatch(r, []string{"GSAP"}) // long match stratum
 			}
@@ -1034,5 +1037,39 @@ func genBigWrite(r *RNG) *Trace {
 	probe(3)
 	t.Ops = append(t.Ops, Op{K: "Parse", Re: true}, Op{K: "Parse", Re: true})
 	probe(2)
+	return t
+}
+
+// genGSAPSmallBlocks: GSAP, one fill of 100..600 bytes over a tiny alphabet
+// parsed in blocks of 4..31 bytes, most of them with NoTrailingLiterals, no
+// Shrink or Reset in between: the bookkeeping of positions handed back and
+// parsed again (rank set members removed and re-inserted, word boundaries of
+// the set) under many block ends per sort.
+func genGSAPSmallBlocks(r *RNG) *Trace {
+	n := r.Range(100, 600)
+	if r.Chance(0.3) {
+		n = 64*r.Range(1, 8) + r.Pick(-1, 0, 1, 2, 3)
+	}
+	spec := ParserSpec{Type: "GSAP", BufferSize: n + r.Intn(8), BlockSize: r.Range(4, 31), MinMatchLen: r.Pick(0, 2, 3, 3)}
+	spec.WindowSize = spec.BufferSize + r.Intn(3)
+	spec.ShrinkSize = r.Intn(spec.BufferSize)
+	t := &Trace{World: "parser", P: &spec, Input: genInput(r, n, r.pickStr("iid2", "iid3", "iid3", "runs", "periodic", "copyback"))}
+	t.Note = "gsap small blocks"
+	fed := 0
+	for fed < n {
+		k := n - fed
+		if r.Chance(0.3) {
+			k = 1 + r.Intn(k)
+		}
+		t.Ops = append(t.Ops, Op{K: "Write", N: k})
+		fed += k
+		for i := k/spec.BlockSize + 2; i > 0; i-- {
+			op := Op{K: "Parse", Re: r.Chance(0.7)}
+			if r.Chance(0.7) {
+				op.F = lz.NoTrailingLiterals
+			}
+			t.Ops = append(t.Ops, op)
+		}
+	}
 	return t
 }
